@@ -204,6 +204,22 @@ def shifts(ctx):
     okv = ('not %s' % off) in names and len(curbin) == 1 and any(has(p, 'A != B', {curbin[0]: E('B'), norm_text(vel.body[0].value) if isinstance(vel.body[0], ast.Assign) else 'x': E('A')}) for p in parts)
   ctx.ob('VEL/emit-on-change', fi, vel or loop, okv, 'a VELOCITY event is emitted exactly for onsets whose bin differs from the current bin, which it then becomes' if okv else
          'velocity events are not emitted under "onset and bin != current bin" with the current bin updated')
+  # location-independent form of the same contract: the tracked bin is a property of the last NOTE_ON, so every update of it and
+  # every VELOCITY event lie on paths where the event is an onset (enclosing tests and earlier `if is_offset: ... continue` exits)
+  binvar = [s_.targets[0].id for s_ in U.walk_stmts(loop) if isinstance(s_, ast.Assign) and isinstance(s_.targets[0], ast.Name) and isinstance(s_.value, ast.Call) and
+            dotted(s_.value.func) == 'velocity_to_bin']
+  state = []
+  for s_ in U.walk_stmts(loop):
+    if isinstance(s_, ast.Assign) and isinstance(s_.targets[0], ast.Name) and isinstance(s_.value, ast.Name) and s_.value.id in binvar and s_.targets[0].id not in binvar:
+      state.append(s_)
+  emits = [s_ for s_ in U.walk_stmts(loop) if isinstance(s_, ast.Expr) and 'PerformanceEvent.VELOCITY' in norm_text(s_)]
+  if len(state) >= 1 and len(emits) >= 1:
+    for s_ in state + emits:
+      conds = U.path_conditions(fi.node, s_, stop_at=loop)
+      onset = any(not pol and norm_text(t) == off for (t, pol) in conds)
+      ctx.ob('VEL/onsets-only', fi, s_, onset, 'executed for onsets only' if onset else
+             '`%s` can execute for a note-off (no condition on the path to it excludes %s): the tracked velocity bin then follows a note that has ended' % (norm_text(s_)[:70], off),
+             construct='%s only for onsets' % ('bin update' if s_ in state else 'VELOCITY event'), definite=True)
   vb = [c for c in U.calls_in(loop) if dotted(c.func) == 'velocity_to_bin']
   ok = len(vb) == 1 and norm_text(vb[0].args[1]) == 'num_velocity_bins' and norm_text(vb[0].args[0]).endswith('.velocity')
   ctx.ob('VEL/bin-function', fi, vb[0] if vb else loop, ok, 'bins come from velocity_to_bin(note.velocity, num_velocity_bins)' if ok else 'the velocity bin is not velocity_to_bin(note.velocity, num_velocity_bins)')
